@@ -540,6 +540,15 @@ func (s *Service) executeBackendRequest(ctx context.Context, endpoint *domain.En
 		return nil, common.MakeUserFriendlyError(err, duration, "backend", s.configuration.GetResponseTimeout())
 	}
 
+	// Go's client accepts any three digits as a status; its server panics on anything below 100
+	if resp.StatusCode < 100 || resp.StatusCode > 999 {
+		_ = resp.Body.Close()
+		err = fmt.Errorf("backend answered with an invalid HTTP status code %03d", resp.StatusCode)
+		rlog.Error("round-trip failed", "error", err)
+		s.RecordFailure(ctx, endpoint, time.Since(stats.StartTime), err)
+		return nil, err
+	}
+
 	return resp, nil
 }
 
